@@ -1,5 +1,5 @@
 SPECIFICATION Spec
-CONSTANTS G = 4  MaxV = 4  XLeft = 0  YDown = 0  UseMin = FALSE  MaxHits = 99  Margin = "range"  BothOrders = FALSE
+CONSTANTS G = 4  MaxV = 4  XLeft = 0  YDown = 0  UseMin = FALSE  MaxHits = 99  Algo = "edges"  BothOrders = FALSE
 CHECK_DEADLOCK FALSE
 INVARIANT NoError
 INVARIANT DesignHolds
